@@ -1,4 +1,5 @@
 import JsonVerif.Lemmas.ObjOps
+import JsonVerif.Lemmas.ObjFront
 /-!
 # C06 — Objects are insertion-ordered multimaps whose key index never goes stale
 
@@ -54,18 +55,112 @@ theorem C06_sort (o : Obj) :
 theorem C06_set_value (o : Obj) (h : Inv o) (i : Nat) (v : JValue) : Inv (o.setValueAt i v) :=
   setValueAt_inv h i v
 
-/-- Full statement for the remaining operations (push_front, remove_at and the three removal
-    iterators built on it: remove, insert, insert_front, remove_unique): each preserves `Inv` and
-    refines the list semantics. Not yet proved in Lean — covered by the exhaustive-history
-    correspondence, which compares entries, results, every key query and the bucket dump after
-    every operation. -/
-def C06_remaining_full : Prop :=
-  ∀ (o : Obj), Inv o →
-    (∀ k v, ∃ o' f, o.pushFront k v = some (o', f) ∧ Inv o' ∧ o'.entries = (k, v) :: o.entries) ∧
-    (∀ i, ∃ o' r, o.removeAt i = some (o', r) ∧ Inv o' ∧ o'.entries = o.entries.eraseIdx i ∧
-      r = o.entries[i]?) ∧
-    (∀ k, ∃ o' ys, o.remove k = some (o', ys) ∧ Inv o' ∧
-      o'.entries = o.entries.filter (fun e => e.1 != k) ∧ ys = o.entries.filter (fun e => e.1 == k))
+/-- **push_front / push_entry_front** -/
+theorem C06_push_front (o : Obj) (h : Inv o) (k : Key) (v : JValue) :
+    ∃ o' fresh, o.pushFront k v = some (o', fresh) ∧ Inv o' ∧ o'.entries = (k, v) :: o.entries ∧
+      (fresh = true ↔ posOf k o.entries = []) := pushFront_inv h k v
+
+/-- **remove_at**: any index (in range or not); returns the entry that was there. -/
+theorem C06_remove_at (o : Obj) (h : Inv o) (i : Nat) :
+    ∃ o', o.removeAt i = some (o', o.entries[i]?) ∧ Inv o' ∧ o'.entries = o.entries.eraseIdx i :=
+  removeAt_inv h i
+
+/-- **remove(key)** — the iterator consumed or dropped half-way (its `Drop` finishes the job):
+    exactly the entries carrying the key are removed and yielded, in entry order. -/
+theorem C06_remove (o : Obj) (h : Inv o) (k : Key) :
+    ∃ o', o.remove k = some (o', o.entries.filter (hasKey k)) ∧ Inv o' ∧
+      o'.entries = o.entries.filter (fun e => !hasKey k e) := remove_inv h k
+
+/-- **remove_unique(key)**: `Ok(None)` / `Ok(Some(e))` / `Err(Duplicate(first, second))`; all the
+    entries carrying the key are gone in every case. -/
+theorem C06_remove_unique (o : Obj) (h : Inv o) (k : Key) :
+    ∃ o', o.removeUnique k = some (o', match o.entries.filter (hasKey k) with
+        | [] => .none
+        | [e] => .one e
+        | a :: b :: _ => .dup a b) ∧ Inv o' ∧
+      o'.entries = o.entries.filter (fun e => !hasKey k e) := removeUnique_inv h k
+
+/-- **insert(key, value)** -/
+theorem C06_insert (o : Obj) (h : Inv o) (k : Key) (v : JValue) :
+    (posOf k o.entries = [] → ∃ o', o.insert k v = some (o', none) ∧ Inv o' ∧
+        o'.entries = o.entries ++ [(k, v)]) ∧
+    (∀ p, (posOf k o.entries).head? = some p → ∃ o' old, o.entries[p]? = some old ∧
+        o.insert k v = some (o', some (old :: (o.entries.drop (p + 1)).filter (hasKey k))) ∧ Inv o' ∧
+        o'.entries = o.entries.take p ++ (k, v) :: (o.entries.drop (p + 1)).filter (fun e => !hasKey k e)) :=
+  insert_inv h k v
+
+/-- **insert_front(key, value)** -/
+theorem C06_insert_front (o : Obj) (h : Inv o) (k : Key) (v : JValue) :
+    ∃ o', o.insertFront k v = some (o', o.entries.filter (hasKey k)) ∧ Inv o' ∧
+      o'.entries = (k, v) :: o.entries.filter (fun e => !hasKey k e) := insertFront_inv h k v
+
+/-- **get_or_insert_with / get_mut_or_insert_with** -/
+theorem C06_get_or_insert (o : Obj) (h : Inv o) (k : Key) (v : JValue) :
+    ∃ o' r, o.getOrInsertWith k v = some (o', r) ∧ Inv o' ∧
+      ((posOf k o.entries = [] ∧ o'.entries = o.entries ++ [(k, v)] ∧ r = v) ∨
+       (∃ p e, (posOf k o.entries).head? = some p ∧ o.entries[p]? = some e ∧ o' = o ∧ r = e.2)) :=
+  getOrInsertWith_inv h k v
+
+/-- the mutating operations of the public API -/
+inductive Op where
+  | push (k : Key) (v : JValue) | pushFront (k : Key) (v : JValue) | removeAt (i : Nat)
+  | remove (k : Key) | removeUnique (k : Key) | insert (k : Key) (v : JValue)
+  | insertFront (k : Key) (v : JValue) | sort | extend (l : List (Key × JValue))
+  | setValue (i : Nat) (v : JValue) | getOrInsert (k : Key) (v : JValue)
+
+/-- one operation; `none` = the real code would panic -/
+def step (o : Obj) : Op → Option Obj
+  | .push k v => (o.push k v).map (·.1)
+  | .pushFront k v => (o.pushFront k v).map (·.1)
+  | .removeAt i => (o.removeAt i).map (·.1)
+  | .remove k => (o.remove k).map (·.1)
+  | .removeUnique k => (o.removeUnique k).map (·.1)
+  | .insert k v => (o.insert k v).map (·.1)
+  | .insertFront k v => (o.insertFront k v).map (·.1)
+  | .sort => o.sort
+  | .extend l => o.extend l
+  | .setValue i v => some (o.setValueAt i v)
+  | .getOrInsert k v => (o.getOrInsertWith k v).map (·.1)
+
+def runOps : Obj → List Op → Option Obj
+  | o, [] => some o
+  | o, op :: ops => (step o op).bind (fun o' => runOps o' ops)
+
+theorem step_inv (o : Obj) (h : Inv o) (op : Op) : ∃ o', step o op = some o' ∧ Inv o' := by
+  cases op with
+  | push k v => obtain ⟨o', f, h1, h2, _⟩ := push_inv h k v; exact ⟨o', by simp [step, h1], h2⟩
+  | pushFront k v => obtain ⟨o', f, h1, h2, _⟩ := pushFront_inv h k v; exact ⟨o', by simp [step, h1], h2⟩
+  | removeAt i => obtain ⟨o', h1, h2, _⟩ := removeAt_inv h i; exact ⟨o', by simp [step, h1], h2⟩
+  | remove k => obtain ⟨o', h1, h2, _⟩ := remove_inv h k; exact ⟨o', by simp [step, h1], h2⟩
+  | removeUnique k => obtain ⟨o', h1, h2, _⟩ := removeUnique_inv h k; exact ⟨o', by simp [step, h1], h2⟩
+  | insert k v =>
+    cases hp : (posOf k o.entries).head? with
+    | none =>
+      have hnil : posOf k o.entries = [] := by
+        cases hl : posOf k o.entries with
+        | nil => rfl
+        | cons a r => rw [hl] at hp; cases hp
+      obtain ⟨o', h1, h2, _⟩ := (insert_inv h k v).1 hnil
+      exact ⟨o', by simp [step, h1], h2⟩
+    | some p =>
+      obtain ⟨o', old, _, h1, h2, _⟩ := (insert_inv h k v).2 p hp
+      exact ⟨o', by simp [step, h1], h2⟩
+  | insertFront k v => obtain ⟨o', h1, h2, _⟩ := insertFront_inv h k v; exact ⟨o', by simp [step, h1], h2⟩
+  | sort => obtain ⟨o', h1, h2, _⟩ := sort_inv o; exact ⟨o', by simp [step, h1], h2⟩
+  | extend l => obtain ⟨o', h1, h2, _⟩ := extend_inv l h; exact ⟨o', by simp [step, h1], h2⟩
+  | setValue i v => exact ⟨_, rfl, setValueAt_inv h i v⟩
+  | getOrInsert k v => obtain ⟨o', r, h1, h2, _⟩ := getOrInsertWith_inv h k v; exact ⟨o', by simp [step, h1], h2⟩
+
+/-- **Every reachable object**: starting from the empty object (or from any entry vector), no
+    sequence of operations ever panics, and after each of them the key index is exact — so
+    (C06_queries) every key-based query of every reachable object is the linear scan. -/
+theorem C06_reachable (ops : List Op) (o : Obj) (h : Inv o) : ∃ o', runOps o ops = some o' ∧ Inv o' := by
+  induction ops generalizing o with
+  | nil => exact ⟨o, rfl, h⟩
+  | cons op ops ih =>
+    obtain ⟨o1, h1, hi1⟩ := step_inv o h op
+    obtain ⟨o', h2, hi'⟩ := ih o1 hi1
+    exact ⟨o', by simp [runOps, h1, h2], hi'⟩
 
 /-! Non-vacuity: an object with duplicate keys built by `from_vec`, queried. -/
 example : (Obj.fromVec [(['a'], .null), (['b'], .bool true), (['a'], .bool false)]).map
